@@ -14,6 +14,9 @@ mod c06;
 mod c07;
 mod c08;
 mod c09;
+mod tgen;
+mod c11;
+mod c12;
 
 use engine::{Ctx, Tier};
 
@@ -25,6 +28,7 @@ fn main() {
   }
   engine::install_panic_hook();
   let id = args[1].as_str();
+  if id == "probe" { probe(); return; }
   if id == "selftest" {
     match specref::selftest() {
       Ok(n) => { println!("specref self-test: {n} official vectors reproduced"); std::process::exit(0) }
@@ -50,5 +54,18 @@ fn main() {
       }
     };
   }
-  dispatch!("C01" => c01, "C02" => c02, "C03" => c03, "C04" => c04, "C05" => c05, "C06" => c06, "C07" => c07, "C08" => c08, "C09" => c09);
+  dispatch!("C01" => c01, "C02" => c02, "C03" => c03, "C04" => c04, "C05" => c05, "C06" => c06, "C07" => c07, "C08" => c08, "C09" => c09, "C11" => c11, "C12" => c12);
+}
+
+#[allow(dead_code)]
+pub fn probe() {
+  use rusty_paseto::prelude::*;
+  use time::format_description::well_known::Rfc3339;
+  for s in ["2020-01-01T00:00:00Z", "2020-01-01T00:00:00.123456789012345678901234567890Z", "2020-01-01T23:59:60Z", "2016-12-31T23:59:60Z", "0000-01-01T00:00:00Z", "9999-12-31T23:59:59+23:59",
+    "2020-01-01T00:00:00-00:00", "2020-02-30T00:00:00Z", "2020-01-01t00:00:00z", "2020-01-01 00:00:00Z", "2020-01-01T00:00:00.1+05:30", "2020-01-01T00:00:00", "2020-01-01", "20200101T000000Z", "+2020-01-01T00:00:00Z", "abcd", "", "2020", "2020-01-01T24:00:00Z",
+    "2020-01-01T00:00:00,5Z", "2020-01-01T00:00:00.Z", "2020-01-01T00:00:00+24:00", "2020-01-01T00:00:00+05", "2020-01-01T00:00:00+0530", "2020-W01-1T00:00:00Z", "2020-001T00:00:00Z"] {
+    let a = ExpirationClaim::try_from(s).is_ok();
+    let b = time::OffsetDateTime::parse(s, &Rfc3339);
+    println!("{:60} iso8601(claim ctor)={:5} time-rfc3339={:?}", s, a, b.map(|d| d.unix_timestamp_nanos()).map_err(|e| e.to_string()));
+  }
 }
